@@ -7,7 +7,7 @@ import subprocess
 
 import vlib
 
-GOALS = ["A%02d" % i for i in range(1, 9)] + ["G%02d" % i for i in range(9, 38)]
+GOALS = ["A%02d" % i for i in range(1, 11)] + ["G%02d" % i for i in range(9, 38)]
 # slices: (name, constants overriding the base); every goal is tried in every applicable slice
 BASE = dict(NReq=3, NOrig=1, MaxDial=3, MaxTick=0, AsBuilt="{}", MaxIdles="{1}", IdleTimeouts="{0}",
             Protos="{TRUE, FALSE}", Faults="AllFaults", Spurious="FALSE", AllowDrop="FALSE")
